@@ -1483,3 +1483,30 @@ def b_fingerings(tier, rnd):
 @battery("small_ints_wide")
 def b_small_ints_wide(tier, rnd):
     return {"rule": "every width -5..400", "cases": [(n,) for n in range(-5, 401)]}
+
+
+@battery("comps")
+def b_comps(tier, rnd):
+    from mingus.containers.composition import Composition
+    from mingus.containers.track import Track
+    out = []
+    for n in (0, 1, 2, 4):
+        c = Composition()
+        for _ in range(n):
+            c.add_track(Track())
+        out.append((c,))
+    return {"rule": "compositions of 0, 1, 2, 4 tracks", "cases": out}
+
+
+@battery("comp_strings")
+def b_comp_strings(tier, rnd):
+    from mingus.containers.composition import Composition
+    strs = ["", "Untitled", "a b", "Ünï", "x" * 50]
+    return {"rule": "5 x 5 strings", "cases": [(Composition(), a, b) for a in strs for b in strs]}
+
+
+@battery("key_pairs")
+def b_key_pairs(tier, rnd):
+    from mingus.core.keys import Key
+    ks = KEYS30
+    return {"rule": "all ordered pairs of the 30 keys", "cases": [(Key(a), Key(b)) for a in ks for b in ks]}
